@@ -110,7 +110,7 @@ def generate(R, tier):
         nd = R.randint(2, 4)
         shape = [R.randint(1, 4) for _ in range(nd)]
         naxis = R.randint(1, nd - 1)
-        axes = sorted(R.sample(range(nd), naxis))
+        axes = R.sample(range(nd), naxis)                      # any order: the slices are the same set
         sc.update(shape=shape, axes=axes, axis_scalar=(naxis == 1 and R.random() < 0.5), dup=R.random() < 0.3, forder=R.random() < 0.25)
         sm = R.choice(["pass", "pass", "pass", "reverse", "rotate"])
         if sm != "pass":
